@@ -51,4 +51,12 @@ def synthStep (tbl : List (String × List String)) (acc : String → Option Stri
 def synth (tbl : List (String × List String)) (opts : List String) : String → Option String :=
   opts.foldl (synthStep tbl) (fun _ => none)
 
+/-- `parserFactory(**kw)` / `lexerFactory(**kw)`: the keyword arguments in call order with their truth values.
+An option that is passed but false is skipped before anything else is asked about it (also its name); the first
+option that is true and unknown ends the call with the package error (its name is returned). -/
+def factory (tbl : List (String × List String)) (kw : List (String × Bool)) : Except String (String → Option String) :=
+  match kw.find? (fun p => p.2 && (tbl.lookup p.1).isNone) with
+  | some p => .error p.1
+  | none => .ok (synth tbl ((kw.filter (·.2)).map (·.1)))
+
 end Pysmi.Grammar
